@@ -27,6 +27,11 @@ type Case struct {
 
 func gen(t *rapid.T) Case {
 	p := jgen.GenProject(t, jgen.Opts{ExtraImps: true, Bodies: rapid.Bool().Draw(t, "bodies"), MultiByte: true, Interfaces: true, MaxUnits: 6, MaxMethods: 3})
+	for i := range p.Files {
+		if rapid.IntRange(0, 7).Draw(t, "crlf") == 0 {
+			p.Files[i].Text = strings.ReplaceAll(p.Files[i].Text, "\n", "\r\n")
+		}
+	}
 	c := Case{Project: p, Initial: rapid.IntRange(1, len(p.Units)).Draw(t, "initial")}
 	n := rapid.IntRange(0, 3).Draw(t, "nOps")
 	for i := 0; i < n; i++ {
